@@ -3765,8 +3765,7 @@ fn analyze_builtin(
 		Builtin::Panic =>
 		{
 			let arguments = typer.analyze_unhinted_arguments(arguments);
-			let return_type = contextual_type.transpose()?;
-			Ok((arguments, return_type))
+			Ok((arguments, Some(ValueType::Void)))
 		}
 		Builtin::Abort =>
 		{
